@@ -10,6 +10,9 @@ pub enum Sel {
     /// struct VIEW: only the listed fields are translated (the generated structure has exactly these);
     /// a selected method that touches any other field is a TRANSLATE-ERROR
     StructView(&'static str, &'static [&'static str]),
+    /// struct without the named IGNORED fields: statements that only write them (assignments, method calls on them,
+    /// `let`s / `if`s of values computed from them) are dropped like `log::…!`; any other read of them is an error
+    StructIgnore(&'static str, &'static [&'static str]),
     /// `enum Name { … }`
     Enum(&'static str),
     /// free `fn name`
@@ -36,7 +39,7 @@ pub const GROUPS: &[(&str, &[(&str, &[Sel])])] = &[
     (
         "Common",
         &[
-            ("renet/src/packet.rs", &[Sel::Const("SLICE_SIZE"), Sel::Struct("Slice"), Sel::Enum("Packet")]),
+            ("renet/src/packet.rs", &[Sel::Const("SLICE_SIZE"), Sel::Struct("Slice"), Sel::Enum("Packet"), Sel::Enum("SerializationError")]),
             (
                 "renetcode/src/lib.rs",
                 &[
@@ -93,7 +96,6 @@ pub const GROUPS: &[(&str, &[(&str, &[Sel])])] = &[
         &[(
             "renet/src/packet.rs",
             &[
-                Sel::Enum("SerializationError"),
                 Sel::From("SerializationError", "BufferTooShortError"),
                 Sel::Method("Packet", "to_bytes"),
                 Sel::Method("Packet", "from_bytes"),
@@ -162,14 +164,57 @@ pub const GROUPS: &[(&str, &[(&str, &[Sel])])] = &[
             ],
         )],
     ),
+    // types of the connection object (`RenetClient` without its statistics fields)
+    (
+        "ConnTypes",
+        &[
+            ("renet/src/channel/mod.rs", &[Sel::Enum("SendType"), Sel::Struct("ChannelConfig")]),
+            ("renet/src/error.rs", &[Sel::Enum("DisconnectReason")]),
+            (
+                "renet/src/remote_connection.rs",
+                &[
+                    Sel::Struct("ConnectionConfig"),
+                    Sel::Enum("PacketSentInfo"),
+                    Sel::Struct("PacketSent"),
+                    Sel::Enum("ChannelOrder"),
+                    Sel::Enum("RenetConnectionStatus"),
+                    Sel::StructIgnore("RenetClient", &["stats", "rtt"]),
+                ],
+            ),
+        ],
+    ),
     (
         "Acks",
         &[(
             "renet/src/remote_connection.rs",
             &[
-                Sel::StructView("RenetClient", &["pending_acks"]),
                 Sel::Method("RenetClient", "add_pending_ack"),
                 Sel::Method("RenetClient", "acked_largest"),
+            ],
+        )],
+    ),
+    // the connection object: construction, status, per-channel send / receive entry points
+    (
+        "Conn",
+        &[(
+            "renet/src/remote_connection.rs",
+            &[
+                Sel::Method("RenetClient", "is_connected"),
+                Sel::Method("RenetClient", "is_connecting"),
+                Sel::Method("RenetClient", "is_disconnected"),
+                Sel::Method("RenetClient", "disconnect_reason"),
+                Sel::Method("RenetClient", "disconnect_with_reason"),
+                Sel::Method("RenetClient", "set_connected"),
+                Sel::Method("RenetClient", "set_connecting"),
+                Sel::Method("RenetClient", "disconnect"),
+                Sel::Method("RenetClient", "disconnect_due_to_transport"),
+                Sel::Method("RenetClient", "from_channels"),
+                Sel::Method("RenetClient", "new"),
+                Sel::Method("RenetClient", "new_from_server"),
+                Sel::Method("RenetClient", "channel_available_memory"),
+                Sel::Method("RenetClient", "can_send_message"),
+                Sel::Method("RenetClient", "send_message"),
+                Sel::Method("RenetClient", "receive_message"),
             ],
         )],
     ),
